@@ -463,6 +463,12 @@ class HttpProxyPlugin(HttpProtocolHandlerPlugin):
                         'Error when parsing request: %r' % raw.tobytes(),
                     ) from e
                 if self.pipeline_request.is_complete:
+                    # Bail out if http protocol is unknown, like for the 1st request
+                    if self.pipeline_request.http_handler_protocol == httpProtocols.UNKNOWN:
+                        self.client.queue(BAD_REQUEST_RESPONSE_PKT)
+                        raise HttpProtocolException(
+                            'Unknown protocol in request: %r' % raw.tobytes(),
+                        )
                     for plugin in self.plugins.values():
                         assert self.pipeline_request is not None
                         r = plugin.handle_client_request(self.pipeline_request)
